@@ -88,8 +88,25 @@ def families(ctx):
     return fn, fam, frame
 
 
-def _id_chain(e: ast.AST) -> Optional[Tuple[ast.AST, int, int]]:
-    """bytes(base_repr(X, B).zfill(W), 'ascii') -> (X, B, W)"""
+_DIGITS36 = "0123456789ABCDEFGHIJKLMNOPQRSTUVWXYZ"
+
+
+def _id_chain(e: ast.AST, lit=None) -> Optional[Tuple[ast.AST, int, int]]:
+    """bytes(base_repr(X, B).zfill(W), 'ascii') -> (X, B, W);  bytes((T[X // B], T[X % B])) with T the B upper-case digits of
+    base_repr (a constant resolved by ``lit``) -> (X, B, 2): the two base-B digits of X, most significant first"""
+    if isinstance(e, ast.Call) and call_name(e) == "bytes" and len(e.args) == 1 and isinstance(e.args[0], (ast.Tuple, ast.List)) and \
+            len(e.args[0].elts) == 2 and lit is not None:
+        hi, lo = e.args[0].elts
+        if all(isinstance(x, ast.Subscript) and isinstance(x.slice, ast.BinOp) and isinstance(x.slice.right, ast.Constant) for x in (hi, lo)) and \
+                isinstance(hi.slice.op, ast.FloorDiv) and isinstance(lo.slice.op, ast.Mod) and hi.slice.right.value == lo.slice.right.value and \
+                unparse(hi.slice.left) == unparse(lo.slice.left) and unparse(hi.value) == unparse(lo.value):
+            try:
+                t = lit(hi.value)
+            except Exception:
+                t = None
+            b = hi.slice.right.value
+            if isinstance(t, bytes) and isinstance(b, int) and 2 <= b <= 36 and t.decode("ascii", "replace")[:b] == _DIGITS36[:b] and len(t) >= b:
+                return hi.slice.left, b, 2
     if isinstance(e, ast.Call) and call_name(e) == "bytes" and e.args:
         z = e.args[0]
         if isinstance(z, ast.Call) and call_name(z) == "zfill" and z.args and isinstance(z.args[0], ast.Constant) and \
@@ -117,7 +134,14 @@ def rule_r1(ctx) -> List[R.Inst]:
     # header side: for e, b in enumerate(self.bpms, 1): b"#BPM" + id(e) + b" " + value(b)
     F = Flow()
     head = None
+    lit_h = lambda n_: M.lit(hdr.mod, n_, hdr.cls)     # noqa: E731
+    loops_h = [n for n in walk_no_nested(hdr.node) if isinstance(n, ast.For)]
+    # (a comprehension building the lines is the same loop: [b"#BPM" + .. for e, b in enumerate(..)])
     for n in walk_no_nested(hdr.node):
+        if isinstance(n, (ast.ListComp, ast.GeneratorExp)) and len(n.generators) == 1 and not n.generators[0].ifs:
+            g_ = n.generators[0]
+            loops_h.append(ast.copy_location(ast.For(target=g_.target, iter=g_.iter, body=[ast.Expr(value=n.elt)], orelse=[]), n))
+    for n in loops_h:
         if isinstance(n, ast.For):
             for c in ast.walk(n):
                 if isinstance(c, ast.BinOp) and isinstance(c.op, ast.Add):
@@ -137,14 +161,14 @@ def rule_r1(ctx) -> List[R.Inst]:
     while isinstance(l, ast.BinOp) and isinstance(l.op, ast.Add):
         parts.insert(0, l.right)
         l = l.left
-    idc = next((p for p in parts if _id_chain(p)), None)
+    idc = next((p for p in parts if _id_chain(p, lit_h)), None)
     val = parts[-1] if parts else None
     chan = fam.get("bpms")
     if idc is None or chan is None:
         return [R.undec(rid, "header-ids", file, loop.lineno, "id formatting chain of #BPMxx not recognised")]
-    hx, hb, hw = _id_chain(idc)
+    hx, hb, hw = _id_chain(idc, lit_h)
     cv = chan[0].elem.elts
-    cid = _id_chain(cv[2]) if len(cv) == 3 else None
+    cid = _id_chain(cv[2], lambda n_: M.lit(fn.mod, n_, fn.cls)) if len(cv) == 3 else None
     if cid is None:
         return [R.undec(rid, "channel-ids", file, chan[1].lineno, "id formatting chain of the tempo objects not recognised")]
     cx, cb, cw = cid
@@ -467,7 +491,7 @@ def rule_r5(ctx) -> List[R.Inst]:
         insts.append(R.undec(rid, "empty-slot", file, fn.node.lineno, "payload initialisation not recognised"))
     # header lines: b"#KEY " + value, joined by CRLF
     wt = c04.header_writer(ctx)
-    hdr = M.fn(WRITE_HEADER)
+    hdr = M.nfn(WRITE_HEADER)      # (a private helper that builds the lines of one table is read in place)
     for k in (b"TITLE", b"ARTIST", b"BPM", b"PLAYLEVEL", b"LNOBJ"):
         key = f"header-line:{k.decode()}"
         if k not in wt:
